@@ -86,8 +86,8 @@ PROPS["C07"] = {
     "assumptions": ["ring (RSA_PKCS1_2048_8192_SHA256) and base64 are trusted; the model's `verify` is instantiated with ring's real verdicts",
                     "SHA-256 of the model is compared with the sha2 crate on every artifact content used (codec check, C16)"],
 }
-DL_Q = [("download", 600), ("network", 400), ("mixed", 250), ("signing", 150), ("rollback", 100)]
-DL_T = [("download", 10000), ("network", 8000), ("mixed", 4000), ("signing", 3000), ("rollback", 2000), ("chaos", 2000)]
+DL_Q = [("reissue", 300), ("download", 600), ("network", 400), ("mixed", 250), ("signing", 150), ("rollback", 100)]
+DL_T = [("reissue", 5000), ("download", 10000), ("network", 8000), ("mixed", 4000), ("signing", 3000), ("rollback", 2000), ("chaos", 2000)]
 PROPS["C05"] = {
     "modules": ["C05"], "required_theorems": ["C05_holds", "update_installed_sound", "installStage_failed"], "monitors": ["C05"],
     "fields": ["ret", "net", "pj", "pd", "sj"],
@@ -98,7 +98,7 @@ PROPS["C05"] = {
 PROPS["C06"] = {
     "modules": ["C06", "C05"], "required_theorems": ["C06_holds", "C06_check_failed", "C06_bad_response", "C05_holds"], "monitors": ["C05", "C13"],
     "fields": ["ret", "net", "pj", "pd", "sj"],
-    "campaign": camp([("network", 700), ("download", 400), ("mixed", 250), ("rollback", 150)], [("network", 12000), ("download", 8000), ("mixed", 4000), ("rollback", 3000), ("chaos", 2000)]),
+    "campaign": camp([("reissue", 200), ("network", 700), ("download", 400), ("mixed", 250), ("rollback", 150)], [("reissue", 3000), ("network", 12000), ("download", 8000), ("mixed", 4000), ("rollback", 3000), ("chaos", 2000)]),
     "assumptions": ["reqwest / TLS / socket behaviour is runtime: the model sees only the classified result (error | ok value) of each request"],
 }
 PROPS["C20"] = {
